@@ -433,6 +433,22 @@ func CheckC14(v *View, st Stats) []Violation {
 	if nUpd > 1 {
 		out = append(out, viol("C14", "parallel-update-burst", "Parallel: %d pods taken down for update in one reconcile", nUpd))
 	}
+	// ... and one at a time across reconciles too: no pod is taken down for update while another pod of the
+	// desired set is still on its way down (terminating) or not back up yet above it
+	for _, c := range v.PodDeletes {
+		p := v.claimedByName(c.Name)
+		if p == nil || v.deleteClass(p) != "c" {
+			continue
+		}
+		_, ord, _ := refspec.ParsePodName(p.Name)
+		for _, j := range refspec.SortedInts(v.Desired) {
+			q := v.ByOrd[j]
+			if j > ord && q != nil && q.DeletionTimestamp != nil {
+				out = append(out, viol("C14", "parallel-update-while-other-pod-down", "Parallel: pod %s taken down for update while %s is still terminating", p.Name, q.Name))
+			}
+		}
+		st.Inc("parallel_update_deletes_checked")
+	}
 	return out
 }
 
